@@ -154,12 +154,14 @@ def _many_sites_project():
     block = "    alpha = fetch_alpha(job)\n    beta = alpha.transform(job)\n    gamma = combine(alpha, beta)\n    delta = publish(gamma, job)\n"
     files = {}
     for i in range(7):
-        body = f"MAX_RETRY_COUNT = 5\n\n\ndef run_{i}(job, level):\n    configure_mode(\"{modes[i % 3]}\")\n"
+        # three similar constant names whose similarity is not transitive (the middle one is the hub)
+        fuzzy = {0: "HTTP_TIMEOUTS = 30\n", 1: "HTTP_TIMEOUT = 30\n", 2: "TIMEOUT_HTTP = 30\n"}.get(i, "")
+        body = f"MAX_RETRY_COUNT = 5\n{fuzzy}\n\ndef run_{i}(job, level):\n    configure_mode(\"{modes[i % 3]}\")\n"
         if i < 4:
             body += block
         body += f"    if level == \"{modes[i % 3]}\" or level == \"{modes[(i + 1) % 3]}\":\n        return {i}\n    return job\n"
         files[f"site{i}.py"] = body
-    files[".thailint.yaml"] = yaml_dump({"dry": {"enabled": True, "min_duplicate_lines": 4}})
+    files[".thailint.yaml"] = yaml_dump({"dry": {"enabled": True, "min_duplicate_lines": 4, "detect_duplicate_constants": True}})
     return files
 
 
@@ -212,6 +214,7 @@ def items(tier: str, seed: int):
         out.append({"kind": "perm", "perms": block})
     out.append({"kind": "walk"})
     out.append({"kind": "perm-many"})
+    out.append({"kind": "repeat-many", "modules": 40, "calls": 6 if tier == "quick" else 12})
     corpus = sorted(_pair_corpus())
     pairs = [(a, b) for a in corpus for b in corpus if a != b]
     for block in chunks(pairs, 40):
@@ -317,6 +320,32 @@ def run_item(item) -> Acc:
                     for rid in rules or ["<multiplicity>"]:
                         acc.fail({"part": "order", "via": "discovery", "rule": rid}, {"dir_perm": list(pd), "file_perm": list(pf)}, [list(t) for t in ref if t[0] == rid][:4], [list(t) for t in got if t[0] == rid][:4], "result depends on directory discovery order")
         remove(root)
+    elif k == "repeat-many":
+        # many modules with the same if/elif chain, linted again and again by ONE Linter: every call
+        # must return what a fresh Linter returns (bookkeeping keyed by object identity must not
+        # survive the objects it describes)
+        from src.api import Linter  # noqa: PLC0415
+
+        chain = "def route_{i}(kind, payload):\n    if kind == \"create\":\n        return make(payload)\n    elif kind == \"update\":\n        return change(payload)\n    elif kind == \"delete\":\n        return drop(payload)\n    return None\n"
+        files = {f"pkg/mod_{i:02d}.py": chain.replace("{i}", str(i)) for i in range(item["modules"])}
+        root = project(files)
+        env.reset_caches()
+        with obs.cwd(root):
+            fresh = _norm(Linter(project_root=root).lint(root), root)
+            long_lived = Linter(project_root=root)
+            for call in range(item["calls"]):
+                got = _norm(long_lived.lint(root), root)
+                acc.case()
+                acc.edge()
+                acc.valid()
+                if fresh:
+                    acc.nt(("repeat-many", call))
+                if got != fresh:
+                    rules = sorted({t[0] for t in set(map(tuple, got)) ^ set(map(tuple, fresh))})
+                    for rid in rules:
+                        acc.fail({"part": "repetition", "via": "many-modules-one-linter", "rule": rid}, {"repeat_many": True, "modules": item["modules"], "call": call}, len([t for t in fresh if t[0] == rid]), len([t for t in got if t[0] == rid]), f"call {call + 1} on the same Linter differs from a fresh Linter")
+                    break
+        remove(root)
     elif k == "perm-many":
         from src.orchestrator.core import Orchestrator  # noqa: PLC0415
 
@@ -419,6 +448,8 @@ def replay_case(case) -> list[dict]:
     elif "order" in case:
         a = run_item({"kind": "perm", "perms": [tuple(case["order"])]})
         return [f for f in a.failures if f["case"].get("cli") == case["cli"]]
+    elif case.get("repeat_many"):
+        return run_item({"kind": "repeat-many", "modules": case["modules"], "calls": case["call"] + 1}).failures
     elif case.get("many_sites"):
         return [f for f in run_item({"kind": "perm-many"}).failures if f["case"].get("order") == case.get("order") and f["case"].get("cli") == case.get("cli")]
     elif case.get("pair"):
